@@ -61,7 +61,7 @@ Fixpoint m_frechet_pbox_mul (fuel : nat) (x y : pb) {struct fuel} : res pb :=
     (rbind (pnum N steps p_lo p_hi (nsub N) self v_x0) (fun v_xx0 =>
     (rbind (m_frechet_pbox_mul fuel v_xx0 other) (fun v_a =>
     (rbind (pnum N steps p_lo p_hi (nmul N) other v_x0) (fun v_b =>
-    (m_frechet_pbox_mul fuel v_a v_b))))))))
+    (m_classic_frechet_pbox v_a v_b (nadd N)))))))))
    else (if (straddles_zero N other) then (let v_y0 := (p_lo_ N other) in
     (rbind (pnum N steps p_lo p_hi (nsub N) other v_y0) (fun v_yy0 =>
     (rbind (m_frechet_pbox_mul fuel self v_yy0) (fun v_a =>
@@ -94,7 +94,7 @@ Definition m_balchprod (fuel : nat) (self other : pb) : res pb :=
     (rbind (pnum N steps p_lo p_hi (nsub N) self v_x0) (fun v_xx0 =>
     (rbind (m_frechet_pbox_mul fuel v_xx0 other) (fun v_a =>
     (rbind (pnum N steps p_lo p_hi (nmul N) other v_x0) (fun v_b =>
-    (m_frechet_pbox_mul fuel v_a v_b))))))))
+    (m_classic_frechet_pbox v_a v_b (nadd N)))))))))
    else (if (straddles_zero N other) then (let v_y0 := (p_lo_ N other) in
     (rbind (pnum N steps p_lo p_hi (nsub N) other v_y0) (fun v_yy0 =>
     (rbind (m_frechet_pbox_mul fuel self v_yy0) (fun v_a =>
